@@ -92,7 +92,7 @@ def run_chunk(args):
     i = lo
     try:
         for i in range(lo, hi):
-            signal.alarm(180)
+            signal.alarm(400)
             run = gen_run(prop, master, tier, i, V, bias)
             trace = W.execute(run)
             viol = W.judge(run, trace)
